@@ -916,6 +916,9 @@ where
                     unsafe {
                         *self.store.heap.get_unchecked_mut(position.0) = parent_index;
                         *self.store.qp.get_unchecked_mut(parent_index.0) = position;
+                        // keep heap and qp consistent while comparing (user code)
+                        *self.store.heap.get_unchecked_mut(parent.0) = map_position;
+                        *self.store.qp.get_unchecked_mut(map_position.0) = parent;
                     }
                     self.bubble_up_max(parent, map_position)
                 }
@@ -928,6 +931,9 @@ where
                     unsafe {
                         *self.store.heap.get_unchecked_mut(position.0) = parent_index;
                         *self.store.qp.get_unchecked_mut(parent_index.0) = position;
+                        // keep heap and qp consistent while comparing (user code)
+                        *self.store.heap.get_unchecked_mut(parent.0) = map_position;
+                        *self.store.qp.get_unchecked_mut(map_position.0) = parent;
                     }
                     self.bubble_up_min(parent, map_position)
                 }
@@ -956,6 +962,9 @@ where
                 let grand_parent_index = *self.store.heap.get_unchecked(grand_parent.0);
                 *self.store.heap.get_unchecked_mut(position.0) = grand_parent_index;
                 *self.store.qp.get_unchecked_mut(grand_parent_index.0) = position;
+                // keep heap and qp consistent while comparing (user code)
+                *self.store.heap.get_unchecked_mut(grand_parent.0) = map_position;
+                *self.store.qp.get_unchecked_mut(map_position.0) = grand_parent;
             }
             position = grand_parent;
         }
@@ -975,6 +984,9 @@ where
                 let grand_parent_index = *self.store.heap.get_unchecked(grand_parent.0);
                 *self.store.heap.get_unchecked_mut(position.0) = grand_parent_index;
                 *self.store.qp.get_unchecked_mut(grand_parent_index.0) = position;
+                // keep heap and qp consistent while comparing (user code)
+                *self.store.heap.get_unchecked_mut(grand_parent.0) = map_position;
+                *self.store.qp.get_unchecked_mut(map_position.0) = grand_parent;
             }
             position = grand_parent;
         }
